@@ -633,7 +633,10 @@ def temporary_programs_c17():
                 a["key"] = 7
             loop = []
             for i in range(5):
-                loop += [{"op": "make", "slot": "T%d" % i, "recipe": mkrec(i)},
+                mk = {"op": "make", "slot": "T%d" % i, "recipe": mkrec(i)}
+                if i:
+                    mk["reuse_id_of"] = "T%d" % (i - 1)  # the simulator decides the address: the one just freed
+                loop += [mk,
                          {"op": "call", "fn": fn, "args": dict({"A": {"slot": "T%d" % i}}, **a)},
                          {"op": "drop", "slot": "T%d" % i}]
                 single = [{"op": "make", "slot": "T%d" % i, "recipe": mkrec(i)},
